@@ -301,6 +301,15 @@ func TestReplay(t *testing.T) {
 	if err != nil {
 		t.Fatalf("cannot load %s: %v", p, err)
 	}
+	if env.Test == "TestC02RedisWire" {
+		var c SchedCase
+		if _, err := vstat.LoadReplay(p, &c); err != nil {
+			t.Fatalf("cannot decode %s: %v", p, err)
+		}
+		c.History = nil
+		runC02Wire(t, "TestReplay", c)
+		return
+	}
 	if env.Test == "TestC06RedisWire" {
 		var c WireCase
 		if _, err := vstat.LoadReplay(p, &c); err != nil {
